@@ -65,20 +65,36 @@ def _both(q, m):
     return acc, ref
 
 
-def state_grid_predicates(sym, cross=True):
-    """yields (predicate, detail, ok) for every isotope|None x charge x radical of `sym` (hydrogen count rotating 0..4/None)."""
+def words3(q, m):
+    """(bits3 of the one-atom molecule, mask3 of the one-atom query) read back from the packed buffers the real encoders return"""
+    import struct
+    try:
+        b3 = struct.unpack_from('QQQQIII', m._cython_compiled_structure, 4)[2]
+    except Exception as e:
+        b3 = 'E:' + type(e).__name__
+    try:
+        m3 = struct.unpack_from('QQQQIIIII', q._cython_compiled_query[0], 4)[2]
+    except Exception as e:
+        m3 = 'E:' + type(e).__name__
+    return b3, m3
+
+
+def state_grid_cases(sym, cross=True):
+    """every isotope|None x charge x radical of `sym` as a one-atom molecule (hydrogen count rotating 0..4/None) against its own
+    query atom, the query atoms differing in exactly one field, and the wildcards; yields one dict per (molecule, query) pair."""
     from chython.periodictable import Element, QueryElement, AnyElement, ListElement
     _ext()
     cls = Element.from_symbol(sym)
     qcls = QueryElement.from_symbol(sym)
     isos = [None] + sorted(cls.isotopes_distribution.fget(None))
+    tab = isos[1:]
     qcache = {}
 
     def Q(iso, c, r, h=None):
         k = (iso, c, r, h)
         if k not in qcache:
             qcache[k] = _query(qcls(iso, charge=c, is_radical=r) if h is None else qcls(iso, charge=c, is_radical=r, implicit_hydrogens=h))
-        return qcache[k]
+        return k, qcache[k]
 
     wild = {}
     k = 0
@@ -87,10 +103,11 @@ def state_grid_predicates(sym, cross=True):
             for r in (False, True):
                 h = HS[k % len(HS)]
                 k += 1
+                base = {'symbol': sym, 'iso': iso, 'charge': c, 'radical': r, 'h': h}
                 try:
                     m = _mol(cls, iso, c, r, h)
                 except Exception as e:
-                    yield ('matcher-state-grid', f'{sym}:iso={iso}:charge={c}:radical={r}:h={h}:build raises {type(e).__name__}', False)
+                    yield dict(base, query='build', qstate=None, expect=True, acc='raises ' + type(e).__name__, ref=None, bits3=None, mask3=None)
                     continue
                 tests = [('own', Q(iso, c, r), True)]
                 if cross:
@@ -98,7 +115,6 @@ def state_grid_predicates(sym, cross=True):
                     tests.append(('radical-flipped', Q(iso, c, not r), False))
                     c2 = (c + 5) % 9 - 4
                     tests.append((f'charge={c2}', Q(iso, c2, r), False))
-                    tab = isos[1:]
                     other = tab[0] if iso is None else (tab[(tab.index(iso) + 1) % len(tab)] if len(tab) > 1 else None)
                     if other is not None:
                         tests.append((f'isotope={other}', Q(other, c, r), False))
@@ -107,13 +123,38 @@ def state_grid_predicates(sym, cross=True):
                         tests.append((f'own-h={(h + 1) % 5}', Q(iso, c, r, (h + 1) % 5), False))
                     if (c, r) not in wild:
                         wild[(c, r)] = (_query(AnyElement(charge=c, is_radical=r)), _query(ListElement([sym, 'Og' if sym != 'Og' else 'H'], charge=c, is_radical=r)))
-                    tests.append(('AnyElement', wild[(c, r)][0], True))
-                    tests.append(('ListElement', wild[(c, r)][1], True))
-                for name, q, expect in tests:
+                    tests.append(('AnyElement', (None, wild[(c, r)][0]), True))
+                    tests.append(('ListElement', (None, wild[(c, r)][1]), True))
+                for name, (qstate, q), expect in tests:
                     acc, ref = _both(q, m)
-                    ok = acc is expect and ref is expect
-                    yield ('matcher-state-grid', f'{sym}:iso={iso}:charge={c}:radical={r}:h={h}:query={name}' +
-                           ('' if ok else f':expected={expect}:accelerated={acc}:reference={ref}'), ok)
+                    b3, m3 = words3(q, m) if qstate is not None else (None, None)
+                    yield dict(base, query=name, qstate=qstate, expect=expect, acc=acc, ref=ref, bits3=b3, mask3=m3)
+
+
+def grid_detail(x):
+    ok = x['acc'] is x['expect'] and x['ref'] is x['expect']
+    d = f"{x['symbol']}:iso={x['iso']}:charge={x['charge']}:radical={x['radical']}:h={x['h']}:query={x['query']}"
+    return d, d + ('' if ok else f":expected={x['expect']}:accelerated={x['acc']}:reference={x['ref']}"), ok
+
+
+def state_grid_predicates(sym, cross=True):
+    """yields (predicate, detail, ok): both REAL matchers give the documented answer for the pair"""
+    for x in state_grid_cases(sym, cross):
+        _, detail, ok = grid_detail(x)
+        yield ('matcher-state-grid', detail, ok)
+
+
+def bits_request(x):
+    """driver request line for one grid case with a QueryElement query"""
+    t = lambda v: 'N' if v is None else str(v)
+    qi, qc, qr, qh = x['qstate']
+    return f"BITS {x['symbol']} {t(x['iso'])} {x['charge']} {int(x['radical'])} {t(x['h'])} 0 0 {t(qi)} {qc} {int(qr)} {t(qh)}"
+
+
+def bits_real(x):
+    """what the real code shows for that case, in the driver's response format (last column: the documented answer)"""
+    f = lambda v: '-' if not isinstance(v, bool) else str(int(v))
+    return f"{x['bits3']} {x['mask3']} {f(x['acc'])} {f(x['ref'])} {int(x['expect'])}"
 
 
 # ------------------------------------------------------------------------------------------------
@@ -368,3 +409,100 @@ def history_predicates(sym, rng, n_random=3, length=16, full=True):
         yield ('history-molecule', f'{sym}:{what}' + ('' if ok else f':got={got!r}:want={want!r}'), ok, None, 1)
     for what, ok, got, want in query_history(cls, QueryElement.from_symbol(sym), full):
         yield ('history-query-atom', f'{sym}:{what}' + ('' if ok else f':got={got!r}:want={want!r}'), ok, None, 1)
+
+
+# ------------------------------------------------------------------------------------------------
+# correspondence with the Lean model of the atom object (Drivers/C18.lean, request HIST)
+# ------------------------------------------------------------------------------------------------
+
+def val_token(v):
+    if v is None:
+        return 'N'
+    if isinstance(v, bool):
+        return 'T' if v else 'F'
+    if isinstance(v, int):
+        return f'I{v}'
+    return 'X'
+
+
+def hist_request(sym, ops):
+    head = ops[0]
+    toks = [f'HIST {sym} {val_token(head[1])} {val_token(head[2])} {val_token(head[3])}']
+    for op in ops[1:]:
+        k = op[0]
+        toks.append({'iso': 'i:', 'charge': 'c:', 'rad': 'r:'}[k] + val_token(op[1]) if k in ('iso', 'charge', 'rad')
+                    else 'm' if k == 'read' else 'k' if k == 'copy' else f'v:{op[1]}')
+    return ' '.join(toks)
+
+
+def _rule_token(rules):
+    if isinstance(rules, str):
+        return 'v=-' if rules == 'ValenceError' else 'v=' + rules
+    return 'v=' + '|'.join(f'{h};' + ','.join(f'{o}.{z}.{n}' for (o, z), n in d.items()) for _, d, h in rules)
+
+
+def hist_real(cls, ops):
+    """the same history on the real object, as the driver's response tokens (mass as a float: compared with a tolerance of
+    10^-11 u against the model's exact rational, every other token verbatim)"""
+    head = ops[0]
+    try:
+        a = cls(head[1], charge=head[2], is_radical=head[3])
+    except (ValueError, TypeError) as e:
+        return ['new:' + type(e).__name__]
+    out = ['new:ok']
+    for op in ops[1:]:
+        k = op[0]
+        try:
+            if k == 'iso':
+                a.isotope = op[1]
+                out.append('ok')
+            elif k == 'charge':
+                a.charge = op[1]
+                out.append('ok')
+            elif k == 'rad':
+                a.is_radical = op[1]
+                out.append('ok')
+            elif k == 'copy':
+                a = a.copy()
+                out.append('ok')
+            elif k == 'read':
+                try:
+                    out.append(('m', a.atomic_mass))
+                except KeyError:
+                    out.append('m=KeyError')
+            elif k == 'rules':
+                out.append(_rule_token(_rules(a, op[1])))
+        except (ValueError, TypeError) as e:
+            out.append(type(e).__name__)
+    out.append(f'state={"N" if a.isotope is None else int(a.isotope)},{int(a.charge)},{int(a.is_radical)}')
+    return out
+
+
+def hist_agree(real, model_line):
+    mt = model_line.split(' ')
+    if len(mt) != len(real):
+        return False
+    for r, m in zip(real, mt):
+        if isinstance(r, tuple):
+            if not m.startswith('m=') or not m[2:].isdigit() or abs(r[1] * 1e12 - int(m[2:])) > 10:
+                return False
+        elif r != m:
+            return False
+    return True
+
+
+def model_histories(cls, rng, n_random, length):
+    """histories for the model correspondence: the walks, and random ones that also use bool / wrong-typed values"""
+    for name, ops in walk_histories(cls):
+        yield name, ops
+    dist = sorted(cls.isotopes_distribution.fget(None))
+    for _ in range(n_random):
+        ops = random_history(cls, rng, length)
+        for op in ops[1:]:
+            if op[0] in ('iso', 'charge') and rng.random() < 0.08:
+                op[1] = rng.choice([True, False, None, 1.0])
+            elif op[0] == 'rad' and rng.random() < 0.15:
+                op[1] = rng.choice([None, 1, 0, 'x'])
+        if rng.random() < 0.15:
+            ops[0] = ['new', rng.choice([None, dist[0], max(dist) + 1, 0, True, 2.5]), rng.choice([0, 4, -4, 5, None, 1.0]), rng.choice([False, True, None, 1])]
+        yield 'random', ops
